@@ -662,6 +662,7 @@ _dispatch_once_wait(dispatch_once_gate_t dgo)
 	dispatch_lock *lock = &dgo->dgo_gate.dgl_lock;
 #endif
 	uint32_t timeout = 1;
+	DISPATCH_VERIF_PROBE(11);
 
 	for (;;) {
 		os_atomic_rmw_loop(&dgo->dgo_once, old_v, new_v, relaxed, {
